@@ -6,9 +6,9 @@
 EXTENDS SqlBatch, Json, IOUtils, Sequences, SequencesExt
 
 Recs == ndJsonDeserialize(IOEnv.RECS)
-ZCols == {"id", "org", "name", "age", "nick", "kind", "small", "flag", "note"}
+ZCols == {"id", "org", "name", "age", "nick", "kind", "small", "flag", "note", "blob"}
 ZRowType == [c \in ZCols |-> CASE c \in {"id", "org", "age"} -> "int64" [] c = "name" -> "string" [] c = "nick" -> "label"
-                                [] c = "kind" -> "named" [] c = "small" -> "int32" [] c = "flag" -> "bool" [] OTHER -> "string"]
+                                [] c = "kind" -> "named" [] c = "small" -> "int32" [] c = "flag" -> "bool" [] c = "blob" -> "bytes" [] OTHER -> "string"]
 Rng(s) == {s[i] : i \in DOMAIN s}
 
 \* what a call has to return, given the rows that belong to it
